@@ -185,7 +185,8 @@ package swamp
 //   changes nothing; every changed record is queued for the writer exactly once;
 // - the status reported is New / Modified / Same accordingly.
 //@ func (*swamp).SaveFunction(s, t, guardID) (status)
-//@   property C07 C30 C19
+//@   property C07 C30 C19 C06
+//@   before Beacon.Add [C06:pending_tombstone_dropped_before_a_recreated_record_is_queued] arg0 == s.treasuresWaitingForWriter && isnil(lastret("Beacon.Get")) ==> calls("Beacon.Delete") == old(calls("Beacon.Delete")) + 1 && calledwith("Beacon.Delete", 0, s.treasuresWaitingForWriter)
 //@   requires[record] t != nil
 //@   modifies *
 //@   ensures[expiry_change_drops_both_orders] calls("swamp.deleteTreasureIfBeaconInitialized") > old(calls("swamp.deleteTreasureIfBeaconInitialized")) ==> calls("swamp.deleteTreasureIfBeaconInitialized") == old(calls("swamp.deleteTreasureIfBeaconInitialized")) + 2 && calledwith("prev:swamp.deleteTreasureIfBeaconInitialized", 1, old(s.expirationTimeBeaconASC)) && calledwith("swamp.deleteTreasureIfBeaconInitialized", 1, old(s.expirationTimeBeaconDESC))
@@ -252,3 +253,108 @@ package swamp
 //@   ensures[flushing_close_reports_closed] calls("swamp.fileWriterHandler") > old(calls("swamp.fileWriterHandler")) ==> calls("swamp.sendClosedEvent") == old(calls("swamp.sendClosedEvent")) + 1
 //@   ensures[closed_event_after_buckets_dropped] calls("swamp.sendClosedEvent") > old(calls("swamp.sendClosedEvent")) ==> calls("swamp.dropAllBuckets") == old(calls("swamp.dropAllBuckets")) + 1
 //@   ensures[already_closing_is_a_no_op] old(s.closing) == 1 ==> calls("swamp.sendClosedEvent") == old(calls("swamp.sendClosedEvent")) && calls("swamp.fileWriterHandler") == old(calls("swamp.fileWriterHandler"))
+
+// ---------------------------------------------------------------------------------------
+// Conditional increments (property C06: the API behaves like a simple key-value model). For every
+// integer width, for EVERY stored value, step and condition value:
+//   - the value is incremented exactly when there is no condition or the condition holds for the value
+//     read under the record's guard (relholds: = != > >= < <=, the documented operators);
+//   - an increment stores and returns old + step in the arithmetic of the type (wrap-around), and saves
+//     the record exactly once; a refused increment returns the value unchanged and stores / saves nothing
+//     after the read;
+//   - a record of another type is an error and is not touched;
+//   - the guard taken is released on every path.
+// Assumed (opaque / trusted): the record accessors, CreateTreasure, the metadata helpers.
+//@ pure relholds(op, a, b) = ite(op == RelationalOperatorEqual, a == b, ite(op == RelationalOperatorNotEqual, a != b, ite(op == RelationalOperatorGreaterThan, a > b, ite(op == RelationalOperatorGreaterThanOrEqual, a >= b, ite(op == RelationalOperatorLessThan, a < b, ite(op == RelationalOperatorLessThanOrEqual, a <= b, true))))))
+//@ func (*swamp).setMetaForIncrement(s, t, guardID, req)
+//@   opaque
+//@ func (*swamp).createMetaForIncrementResponse(s, t) (resp)
+//@   opaque
+//@ trusted func (github.com/hydraide/hydraide/app/core/hydra/swamp/treasure.Treasure).GetContentUint8(t) (v, err)
+//@ trusted func (github.com/hydraide/hydraide/app/core/hydra/swamp/treasure.Treasure).SetContentUint8(t, guardID, v)
+//@ func (*swamp).IncrementUint8(s, key, i, condition, metaIfNotExist, metaIfExist) (newValue, incremented, meta, err)
+//@   property C06
+//@   modifies *
+//@   ensures[incremented_iff_condition_holds] err == nil ==> (incremented <==> (condition == nil || relholds(old(condition.RelationalOperator), lastret("Treasure.GetContentUint8", 0), old(condition.Value))))
+//@   ensures[increment_stores_old_plus_step] err == nil && incremented ==> newValue == uint8(lastret("Treasure.GetContentUint8", 0) + i) && calledwith("Treasure.SetContentUint8", 2, newValue) && calledwith("Treasure.SetContentUint8", 1, lastret("Treasure.StartTreasureGuard")) && calls("Treasure.Save") == old(calls("Treasure.Save")) + 1 && calledwith("Treasure.Save", 1, lastret("Treasure.StartTreasureGuard"))
+//@   ensures[refused_increment_changes_nothing] err == nil && !incremented ==> newValue == lastret("Treasure.GetContentUint8", 0) && calls("Treasure.Save") == old(calls("Treasure.Save")) && calls("Treasure.SetContentUint8") <= old(calls("Treasure.SetContentUint8")) + 1
+//@   ensures[value_read_under_the_guard] err == nil ==> calls("Treasure.GetContentUint8") == old(calls("Treasure.GetContentUint8")) + 1 && calls("Treasure.StartTreasureGuard") == old(calls("Treasure.StartTreasureGuard")) + 1
+//@   ensures[error_touches_nothing] err != nil ==> !incremented && calls("Treasure.Save") == old(calls("Treasure.Save"))
+//@   ensures[guard_released] calls("Treasure.ReleaseTreasureGuard") == old(calls("Treasure.ReleaseTreasureGuard")) + 1 && calledwith("Treasure.ReleaseTreasureGuard", 1, lastret("Treasure.StartTreasureGuard"))
+//@ trusted func (github.com/hydraide/hydraide/app/core/hydra/swamp/treasure.Treasure).GetContentUint16(t) (v, err)
+//@ trusted func (github.com/hydraide/hydraide/app/core/hydra/swamp/treasure.Treasure).SetContentUint16(t, guardID, v)
+//@ func (*swamp).IncrementUint16(s, key, i, condition, metaIfNotExist, metaIfExist) (newValue, incremented, meta, err)
+//@   property C06
+//@   modifies *
+//@   ensures[incremented_iff_condition_holds] err == nil ==> (incremented <==> (condition == nil || relholds(old(condition.RelationalOperator), lastret("Treasure.GetContentUint16", 0), old(condition.Value))))
+//@   ensures[increment_stores_old_plus_step] err == nil && incremented ==> newValue == uint16(lastret("Treasure.GetContentUint16", 0) + i) && calledwith("Treasure.SetContentUint16", 2, newValue) && calledwith("Treasure.SetContentUint16", 1, lastret("Treasure.StartTreasureGuard")) && calls("Treasure.Save") == old(calls("Treasure.Save")) + 1 && calledwith("Treasure.Save", 1, lastret("Treasure.StartTreasureGuard"))
+//@   ensures[refused_increment_changes_nothing] err == nil && !incremented ==> newValue == lastret("Treasure.GetContentUint16", 0) && calls("Treasure.Save") == old(calls("Treasure.Save")) && calls("Treasure.SetContentUint16") <= old(calls("Treasure.SetContentUint16")) + 1
+//@   ensures[value_read_under_the_guard] err == nil ==> calls("Treasure.GetContentUint16") == old(calls("Treasure.GetContentUint16")) + 1 && calls("Treasure.StartTreasureGuard") == old(calls("Treasure.StartTreasureGuard")) + 1
+//@   ensures[error_touches_nothing] err != nil ==> !incremented && calls("Treasure.Save") == old(calls("Treasure.Save"))
+//@   ensures[guard_released] calls("Treasure.ReleaseTreasureGuard") == old(calls("Treasure.ReleaseTreasureGuard")) + 1 && calledwith("Treasure.ReleaseTreasureGuard", 1, lastret("Treasure.StartTreasureGuard"))
+//@ trusted func (github.com/hydraide/hydraide/app/core/hydra/swamp/treasure.Treasure).GetContentUint32(t) (v, err)
+//@ trusted func (github.com/hydraide/hydraide/app/core/hydra/swamp/treasure.Treasure).SetContentUint32(t, guardID, v)
+//@ func (*swamp).IncrementUint32(s, key, i, condition, metaIfNotExist, metaIfExist) (newValue, incremented, meta, err)
+//@   property C06
+//@   modifies *
+//@   ensures[incremented_iff_condition_holds] err == nil ==> (incremented <==> (condition == nil || relholds(old(condition.RelationalOperator), lastret("Treasure.GetContentUint32", 0), old(condition.Value))))
+//@   ensures[increment_stores_old_plus_step] err == nil && incremented ==> newValue == uint32(lastret("Treasure.GetContentUint32", 0) + i) && calledwith("Treasure.SetContentUint32", 2, newValue) && calledwith("Treasure.SetContentUint32", 1, lastret("Treasure.StartTreasureGuard")) && calls("Treasure.Save") == old(calls("Treasure.Save")) + 1 && calledwith("Treasure.Save", 1, lastret("Treasure.StartTreasureGuard"))
+//@   ensures[refused_increment_changes_nothing] err == nil && !incremented ==> newValue == lastret("Treasure.GetContentUint32", 0) && calls("Treasure.Save") == old(calls("Treasure.Save")) && calls("Treasure.SetContentUint32") <= old(calls("Treasure.SetContentUint32")) + 1
+//@   ensures[value_read_under_the_guard] err == nil ==> calls("Treasure.GetContentUint32") == old(calls("Treasure.GetContentUint32")) + 1 && calls("Treasure.StartTreasureGuard") == old(calls("Treasure.StartTreasureGuard")) + 1
+//@   ensures[error_touches_nothing] err != nil ==> !incremented && calls("Treasure.Save") == old(calls("Treasure.Save"))
+//@   ensures[guard_released] calls("Treasure.ReleaseTreasureGuard") == old(calls("Treasure.ReleaseTreasureGuard")) + 1 && calledwith("Treasure.ReleaseTreasureGuard", 1, lastret("Treasure.StartTreasureGuard"))
+//@ trusted func (github.com/hydraide/hydraide/app/core/hydra/swamp/treasure.Treasure).GetContentUint64(t) (v, err)
+//@ trusted func (github.com/hydraide/hydraide/app/core/hydra/swamp/treasure.Treasure).SetContentUint64(t, guardID, v)
+//@ func (*swamp).IncrementUint64(s, key, i, condition, metaIfNotExist, metaIfExist) (newValue, incremented, meta, err)
+//@   property C06
+//@   modifies *
+//@   ensures[incremented_iff_condition_holds] err == nil ==> (incremented <==> (condition == nil || relholds(old(condition.RelationalOperator), lastret("Treasure.GetContentUint64", 0), old(condition.Value))))
+//@   ensures[increment_stores_old_plus_step] err == nil && incremented ==> newValue == uint64(lastret("Treasure.GetContentUint64", 0) + i) && calledwith("Treasure.SetContentUint64", 2, newValue) && calledwith("Treasure.SetContentUint64", 1, lastret("Treasure.StartTreasureGuard")) && calls("Treasure.Save") == old(calls("Treasure.Save")) + 1 && calledwith("Treasure.Save", 1, lastret("Treasure.StartTreasureGuard"))
+//@   ensures[refused_increment_changes_nothing] err == nil && !incremented ==> newValue == lastret("Treasure.GetContentUint64", 0) && calls("Treasure.Save") == old(calls("Treasure.Save")) && calls("Treasure.SetContentUint64") <= old(calls("Treasure.SetContentUint64")) + 1
+//@   ensures[value_read_under_the_guard] err == nil ==> calls("Treasure.GetContentUint64") == old(calls("Treasure.GetContentUint64")) + 1 && calls("Treasure.StartTreasureGuard") == old(calls("Treasure.StartTreasureGuard")) + 1
+//@   ensures[error_touches_nothing] err != nil ==> !incremented && calls("Treasure.Save") == old(calls("Treasure.Save"))
+//@   ensures[guard_released] calls("Treasure.ReleaseTreasureGuard") == old(calls("Treasure.ReleaseTreasureGuard")) + 1 && calledwith("Treasure.ReleaseTreasureGuard", 1, lastret("Treasure.StartTreasureGuard"))
+//@ trusted func (github.com/hydraide/hydraide/app/core/hydra/swamp/treasure.Treasure).GetContentInt8(t) (v, err)
+//@ trusted func (github.com/hydraide/hydraide/app/core/hydra/swamp/treasure.Treasure).SetContentInt8(t, guardID, v)
+//@ func (*swamp).IncrementInt8(s, key, i, condition, metaIfNotExist, metaIfExist) (newValue, incremented, meta, err)
+//@   property C06
+//@   modifies *
+//@   ensures[incremented_iff_condition_holds] err == nil ==> (incremented <==> (condition == nil || relholds(old(condition.RelationalOperator), lastret("Treasure.GetContentInt8", 0), old(condition.Value))))
+//@   ensures[increment_stores_old_plus_step] err == nil && incremented ==> newValue == int8(lastret("Treasure.GetContentInt8", 0) + i) && calledwith("Treasure.SetContentInt8", 2, newValue) && calledwith("Treasure.SetContentInt8", 1, lastret("Treasure.StartTreasureGuard")) && calls("Treasure.Save") == old(calls("Treasure.Save")) + 1 && calledwith("Treasure.Save", 1, lastret("Treasure.StartTreasureGuard"))
+//@   ensures[refused_increment_changes_nothing] err == nil && !incremented ==> newValue == lastret("Treasure.GetContentInt8", 0) && calls("Treasure.Save") == old(calls("Treasure.Save")) && calls("Treasure.SetContentInt8") <= old(calls("Treasure.SetContentInt8")) + 1
+//@   ensures[value_read_under_the_guard] err == nil ==> calls("Treasure.GetContentInt8") == old(calls("Treasure.GetContentInt8")) + 1 && calls("Treasure.StartTreasureGuard") == old(calls("Treasure.StartTreasureGuard")) + 1
+//@   ensures[error_touches_nothing] err != nil ==> !incremented && calls("Treasure.Save") == old(calls("Treasure.Save"))
+//@   ensures[guard_released] calls("Treasure.ReleaseTreasureGuard") == old(calls("Treasure.ReleaseTreasureGuard")) + 1 && calledwith("Treasure.ReleaseTreasureGuard", 1, lastret("Treasure.StartTreasureGuard"))
+//@ trusted func (github.com/hydraide/hydraide/app/core/hydra/swamp/treasure.Treasure).GetContentInt16(t) (v, err)
+//@ trusted func (github.com/hydraide/hydraide/app/core/hydra/swamp/treasure.Treasure).SetContentInt16(t, guardID, v)
+//@ func (*swamp).IncrementInt16(s, key, i, condition, metaIfNotExist, metaIfExist) (newValue, incremented, meta, err)
+//@   property C06
+//@   modifies *
+//@   ensures[incremented_iff_condition_holds] err == nil ==> (incremented <==> (condition == nil || relholds(old(condition.RelationalOperator), lastret("Treasure.GetContentInt16", 0), old(condition.Value))))
+//@   ensures[increment_stores_old_plus_step] err == nil && incremented ==> newValue == int16(lastret("Treasure.GetContentInt16", 0) + i) && calledwith("Treasure.SetContentInt16", 2, newValue) && calledwith("Treasure.SetContentInt16", 1, lastret("Treasure.StartTreasureGuard")) && calls("Treasure.Save") == old(calls("Treasure.Save")) + 1 && calledwith("Treasure.Save", 1, lastret("Treasure.StartTreasureGuard"))
+//@   ensures[refused_increment_changes_nothing] err == nil && !incremented ==> newValue == lastret("Treasure.GetContentInt16", 0) && calls("Treasure.Save") == old(calls("Treasure.Save")) && calls("Treasure.SetContentInt16") <= old(calls("Treasure.SetContentInt16")) + 1
+//@   ensures[value_read_under_the_guard] err == nil ==> calls("Treasure.GetContentInt16") == old(calls("Treasure.GetContentInt16")) + 1 && calls("Treasure.StartTreasureGuard") == old(calls("Treasure.StartTreasureGuard")) + 1
+//@   ensures[error_touches_nothing] err != nil ==> !incremented && calls("Treasure.Save") == old(calls("Treasure.Save"))
+//@   ensures[guard_released] calls("Treasure.ReleaseTreasureGuard") == old(calls("Treasure.ReleaseTreasureGuard")) + 1 && calledwith("Treasure.ReleaseTreasureGuard", 1, lastret("Treasure.StartTreasureGuard"))
+//@ trusted func (github.com/hydraide/hydraide/app/core/hydra/swamp/treasure.Treasure).GetContentInt32(t) (v, err)
+//@ trusted func (github.com/hydraide/hydraide/app/core/hydra/swamp/treasure.Treasure).SetContentInt32(t, guardID, v)
+//@ func (*swamp).IncrementInt32(s, key, i, condition, metaIfNotExist, metaIfExist) (newValue, incremented, meta, err)
+//@   property C06
+//@   modifies *
+//@   ensures[incremented_iff_condition_holds] err == nil ==> (incremented <==> (condition == nil || relholds(old(condition.RelationalOperator), lastret("Treasure.GetContentInt32", 0), old(condition.Value))))
+//@   ensures[increment_stores_old_plus_step] err == nil && incremented ==> newValue == int32(lastret("Treasure.GetContentInt32", 0) + i) && calledwith("Treasure.SetContentInt32", 2, newValue) && calledwith("Treasure.SetContentInt32", 1, lastret("Treasure.StartTreasureGuard")) && calls("Treasure.Save") == old(calls("Treasure.Save")) + 1 && calledwith("Treasure.Save", 1, lastret("Treasure.StartTreasureGuard"))
+//@   ensures[refused_increment_changes_nothing] err == nil && !incremented ==> newValue == lastret("Treasure.GetContentInt32", 0) && calls("Treasure.Save") == old(calls("Treasure.Save")) && calls("Treasure.SetContentInt32") <= old(calls("Treasure.SetContentInt32")) + 1
+//@   ensures[value_read_under_the_guard] err == nil ==> calls("Treasure.GetContentInt32") == old(calls("Treasure.GetContentInt32")) + 1 && calls("Treasure.StartTreasureGuard") == old(calls("Treasure.StartTreasureGuard")) + 1
+//@   ensures[error_touches_nothing] err != nil ==> !incremented && calls("Treasure.Save") == old(calls("Treasure.Save"))
+//@   ensures[guard_released] calls("Treasure.ReleaseTreasureGuard") == old(calls("Treasure.ReleaseTreasureGuard")) + 1 && calledwith("Treasure.ReleaseTreasureGuard", 1, lastret("Treasure.StartTreasureGuard"))
+//@ trusted func (github.com/hydraide/hydraide/app/core/hydra/swamp/treasure.Treasure).GetContentInt64(t) (v, err)
+//@ trusted func (github.com/hydraide/hydraide/app/core/hydra/swamp/treasure.Treasure).SetContentInt64(t, guardID, v)
+//@ func (*swamp).IncrementInt64(s, key, i, condition, metaIfNotExist, metaIfExist) (newValue, incremented, meta, err)
+//@   property C06
+//@   modifies *
+//@   ensures[incremented_iff_condition_holds] err == nil ==> (incremented <==> (condition == nil || relholds(old(condition.RelationalOperator), lastret("Treasure.GetContentInt64", 0), old(condition.Value))))
+//@   ensures[increment_stores_old_plus_step] err == nil && incremented ==> newValue == int64(lastret("Treasure.GetContentInt64", 0) + i) && calledwith("Treasure.SetContentInt64", 2, newValue) && calledwith("Treasure.SetContentInt64", 1, lastret("Treasure.StartTreasureGuard")) && calls("Treasure.Save") == old(calls("Treasure.Save")) + 1 && calledwith("Treasure.Save", 1, lastret("Treasure.StartTreasureGuard"))
+//@   ensures[refused_increment_changes_nothing] err == nil && !incremented ==> newValue == lastret("Treasure.GetContentInt64", 0) && calls("Treasure.Save") == old(calls("Treasure.Save")) && calls("Treasure.SetContentInt64") <= old(calls("Treasure.SetContentInt64")) + 1
+//@   ensures[value_read_under_the_guard] err == nil ==> calls("Treasure.GetContentInt64") == old(calls("Treasure.GetContentInt64")) + 1 && calls("Treasure.StartTreasureGuard") == old(calls("Treasure.StartTreasureGuard")) + 1
+//@   ensures[error_touches_nothing] err != nil ==> !incremented && calls("Treasure.Save") == old(calls("Treasure.Save"))
+//@   ensures[guard_released] calls("Treasure.ReleaseTreasureGuard") == old(calls("Treasure.ReleaseTreasureGuard")) + 1 && calledwith("Treasure.ReleaseTreasureGuard", 1, lastret("Treasure.StartTreasureGuard"))
